@@ -486,12 +486,15 @@ func (o *OracleC13) After(x *Exec, op *Op, res *Res) {
 			mustSettle[op.V] = true
 		}
 	case KDelegate:
-		if res.OK {
+		// (an existing position of an asset still in warm-up earns nothing and settles nothing)
+		if res.OK && (started(op.Denom) || !exists(op.D, op.V, op.Denom)) {
 			mustSettle[op.V] = true
 		}
 	case KRedelegate:
 		if res.OK {
-			mustSettle[op.W] = true
+			if started(op.Denom) || !exists(op.D, op.W, op.Denom) {
+				mustSettle[op.W] = true
+			}
 			if started(op.Denom) {
 				mustSettle[op.V] = true
 			}
